@@ -28,6 +28,10 @@ pub enum Damage {
     Empty,
     /// the file is intact and loaded as its own type (used with an injected system-call failure)
     Intact,
+    /// the path names a directory (stat and open succeed, read fails with EISDIR)
+    Directory,
+    /// the path does not exist
+    Missing,
 }
 
 #[derive(Clone, Copy, Debug, PartialEq, Eq, serde::Serialize, serde::Deserialize)]
@@ -36,6 +40,10 @@ pub enum SysFault {
     Mmap(u32),
     /// mprotect fails with EACCES
     Mprotect,
+    /// the n-th read(2) of the loader fails with EIO (disk error)
+    ReadEio(u32),
+    /// the n-th read(2) of the loader returns 0: the file shrank between stat and read
+    ReadEof(u32),
 }
 
 #[derive(Clone, Debug, PartialEq, Eq, serde::Serialize, serde::Deserialize)]
@@ -262,6 +270,8 @@ impl DocFn for LoadFn {
         match self.fault {
             Some(SysFault::Mmap(n)) => sys::inject_mmap_failure(n),
             Some(SysFault::Mprotect) => sys::inject_mprotect_failure(),
+            Some(SysFault::ReadEio(n)) => sys::inject_read_failure(n, false),
+            Some(SysFault::ReadEof(n)) => sys::inject_read_failure(n, true),
             None => {}
         }
         catch(|| {
@@ -631,9 +641,20 @@ impl<'a> World<'a> {
             Damage::Intact => {
                 cause = "intact".into();
             }
+            Damage::Directory => {
+                cause = "path-is-a-directory".into();
+            }
+            Damage::Missing => {
+                cause = "missing-file".into();
+            }
         }
         let cause = if fault.is_some() { format!("syscall-failure") } else { cause };
-        let path = if bytes == f.bytes { f.path.clone() } else { self.cfg.scratch.join("damaged.bin") };
+        let path = match damage {
+            Damage::Directory => self.cfg.scratch.to_path_buf(),
+            Damage::Missing => self.cfg.scratch.join("no-such-file.bin"),
+            _ if bytes == f.bytes => f.path.clone(),
+            _ => self.cfg.scratch.join("damaged.bin"),
+        };
         if bytes != f.bytes {
             if std::fs::write(&path, &bytes).is_err() {
                 return;
@@ -646,7 +667,7 @@ impl<'a> World<'a> {
             if fired == 0 {
                 self.counts.push("fault.syscall_not_reached".into());
             } else {
-                self.counts.push(format!("fault.{}", match fault { Some(SysFault::Mmap(_)) => "mmap_ENOMEM", _ => "mprotect_EACCES" }));
+                self.counts.push(format!("fault.{}", match fault { Some(SysFault::Mmap(_)) => "mmap_ENOMEM", Some(SysFault::ReadEio(_)) => "read_EIO", Some(SysFault::ReadEof(_)) => "read_EOF_file_shrank", _ => "mprotect_EACCES" }));
             }
         }
         self.h.str("badload").str(loader.name()).str(&cause);
@@ -968,7 +989,7 @@ pub fn execute(cfg: &WorldCfg, case: &Case) -> Result<Info, Violation> {
 
 const WORLD_DOCS: &[&str] = &[
     "PaddedVecU64", "PaddedZ32", "PaddedStr", "DropProbeD", "VecU64", "BoxU32", "VecZ32", "PersonD", "DeepA", "DeepB", "DeepC", "VecString", "Str", "VecZeroP", "OptVecU64", "EnumDVec", "VecVecU32", "ArrString", "U64",
-    "VecU8", "VecU128", "TupleSD", "ArrU64x4", "E9D", "BoundString", "CfStrVec", "ConstGen3", "PhantomD", "VecPair", "Unit",
+    "VecU8", "VecU128", "IncrA", "IncrB", "DeepD", "TupleSD", "ArrU64x4", "E9D", "BoundString", "CfStrVec", "ConstGen3", "PhantomD", "VecPair", "Unit",
 ];
 
 pub fn gen_ops(r: &mut Rng, c09: bool, tier: Tier) -> Vec<Op> {
@@ -984,7 +1005,7 @@ pub fn gen_ops(r: &mut Rng, c09: bool, tier: Tier) -> Vec<Op> {
     // swarm: per-run weights
     let w_bad = if c09 { r.range(1, 6) } else { 0 };
     let w_escape = if c09 { r.below(3) } else { 0 };
-    let w_sys = if c09 { r.below(2) } else { 0 };
+    let w_sys = if c09 { r.below(4) } else { 0 };
     while ops.len() < nops {
         if nfiles == 0 {
             ops.push(Op::Store { actor: actor(r), doc: r.pick(WORLD_DOCS).to_string(), vi: r.below(max_vi), over: None });
@@ -1015,13 +1036,17 @@ pub fn gen_ops(r: &mut Rng, c09: bool, tier: Tier) -> Vec<Op> {
             24..=25 => Op::Rewrite { file: r.next() as usize },
             26..=29 => Op::Drop { actor: actor(r), slot: r.next() as usize },
             _ if k < b1 => {
-                let damage = match r.below(9) {
+                let damage = match r.below(10) {
                     0 | 1 => Damage::WrongType(r.pick(WORLD_DOCS).to_string()),
                     2 | 3 => Damage::HeaderFlip { byte: r.below(29) as usize, bit: r.below(8) as u8 },
                     4 => Damage::ReversedCookie,
                     5 => Damage::Tag { idx: r.next() as usize, val: r.range(16, 255) as u8 },
                     6 | 7 => Damage::Truncate(r.below(1000) as u32),
-                    _ => Damage::Empty,
+                    _ => match r.below(3) {
+                        0 => Damage::Empty,
+                        1 => Damage::Directory,
+                        _ => Damage::Missing,
+                    },
                 };
                 Op::BadLoad { actor: actor(r), file: r.next() as usize, loader: *r.pick(loaders), flags: r.below(8) as u32, damage }
             }
@@ -1032,7 +1057,33 @@ pub fn gen_ops(r: &mut Rng, c09: bool, tier: Tier) -> Vec<Op> {
                     Op::ReadEscaped { actor: actor(r), idx: r.next() as usize }
                 }
             }
-            _ => Op::SysFaultLoad { actor: actor(r), file: r.next() as usize, loader: *r.pick(loaders), flags: r.below(8) as u32, fault: if r.chance(1, 2) { SysFault::Mmap(1) } else { SysFault::Mprotect } },
+            _ => {
+                let loader = *r.pick(loaders);
+                let fault = match loader {
+                    Loader::Full => {
+                        if r.chance(1, 2) {
+                            SysFault::ReadEio(r.range(1, 3) as u32)
+                        } else {
+                            SysFault::ReadEof(r.range(1, 2) as u32)
+                        }
+                    }
+                    Loader::Mem => {
+                        if r.chance(1, 2) {
+                            SysFault::ReadEio(r.range(1, 2) as u32)
+                        } else {
+                            SysFault::ReadEof(1)
+                        }
+                    }
+                    Loader::LoadMmap => match r.below(4) {
+                        0 => SysFault::Mmap(1),
+                        1 => SysFault::Mprotect,
+                        2 => SysFault::ReadEio(1),
+                        _ => SysFault::ReadEof(1),
+                    },
+                    Loader::Mmap => SysFault::Mmap(1),
+                };
+                Op::SysFaultLoad { actor: actor(r), file: r.next() as usize, loader, flags: r.below(8) as u32, fault }
+            }
         };
         ops.push(op);
     }
@@ -1052,6 +1103,36 @@ pub fn shrink_ops(c: &Case) -> Vec<Case> {
         let mut d = c.clone();
         d.ops.remove(i);
         out.push(d);
+    }
+    // raw indices (taken modulo the number of live files / structures) -> small numbers
+    for i in 0..c.ops.len() {
+        for small in [0usize, 1, 2] {
+            let mut op = c.ops[i].clone();
+            let changed = match &mut op {
+                Op::Load { file, .. } | Op::BadLoad { file, .. } | Op::SysFaultLoad { file, .. } | Op::Unlink { file } | Op::Rewrite { file } if *file > 2 => {
+                    *file = small;
+                    true
+                }
+                Op::Verify { slot, .. } | Op::Move { slot, .. } | Op::SharedRead { slot, .. } | Op::Drop { slot, .. } | Op::Escape { slot, .. } if *slot > 2 => {
+                    *slot = small;
+                    true
+                }
+                Op::ReadEscaped { idx, .. } if *idx > 2 => {
+                    *idx = small;
+                    true
+                }
+                Op::Store { over: Some(o), .. } if *o > 2 => {
+                    *o = small;
+                    true
+                }
+                _ => false,
+            };
+            if changed {
+                let mut d = c.clone();
+                d.ops[i] = op;
+                out.push(d);
+            }
+        }
     }
     for i in 0..c.ops.len() {
         let mut d = c.clone();
